@@ -287,7 +287,7 @@ def check_obligations(prop, build):
             res["assumptions"][t] = []
             res["discharged"] += 1
         else:
-            ax = re.findall(r"^([A-Za-z_][A-Za-z0-9_.']*)\s*:", blk, re.M)
+            ax = [a for a in re.findall(r"^([A-Za-z_][A-Za-z0-9_.']*)\s*:", blk, re.M) if a != "Axioms"]
             res["assumptions"][t] = ax
             notok = [a for a in ax if a not in ALLOWED_AXIOMS]
             if notok:
